@@ -103,6 +103,18 @@ def systematic(rng, tier):
             rng.shuffle(trip)
             for a, c, d in trip[:1500]:
                 cases.append(head + seg_schedule([(a[0], a[1], 0), (c[0], c[1], 0), (d[0], d[1], 1)]))
+    # one thread stalled a steps into its call while another thread's Shutdown (and the worker's exit) runs to completion, then
+    # resumed: windows between a call's entry test and its effect (ticket taken / record queued after the worker has gone)
+    stall = [
+        ("span", 2, 1, ["t f 0", "t h 0"]), ("log", 2, 1, ["t f 0", "t h 0"]),
+        ("span", 2, 2, ["t e f 0", "t h 0"]), ("log", 1, 1, ["t e e", "t e h 0"]),
+        ("log", 2, 1, ["t f 0 f 0", "t e h 0"]), ("span", 1, 1, ["t h 0", "t h 0"]),
+    ]
+    for kind, q, b, secs in stall:
+        head = "BATCH %s %d %d 100 %d 0 | %s | s " % (kind, q, b, rng.choice([0, 1]), " | ".join(secs))
+        for a in (range(1, 13) if tier == "thorough" else [1, 2, 3, 4, 5, 6, 8, 11]):
+            cases.append(head + seg_schedule([(1, a, 0), (2, 12, 0), (0, 40, 0), (2, 12, 0), (0, 40, 0), (2, 12, 0)]))
+            cases.append(head + seg_schedule([(1, a, 0), (0, 6, 0), (2, 20, 0), (0, 60, 0), (2, 20, 0)]))
     return cases
 
 
